@@ -11,11 +11,14 @@ PROPS = {
                 assumptions=["same scheduler and scheduling points as C06; liveness is decided as: no deadlock (no runnable thread, no sleeper) and completion within 3e6 scheduling steps under the generated schedule followed by run-to-completion",
                              "a flush that returns TIMED_OUT asserts nothing; 'had returned before the flush call started' is judged on the global trace order of the scheduler",
                              "a livelock that depends on real time passing differently from the virtual clock is out of reach"]),
-    "C06": dict(sources=["props/C06.cpp", "vsched.cpp"], jls=True, sched=True, mrb_size=1024, enumerate=True, tiers=T(1600, 30000),
+    # real-thread ThreadSanitizer part of C06 (run by ./check C06 as extra workers; not a check of its own)
+    "C06r": dict(hidden=True, sources=["props/C06r.cpp"], jls=True, mrb_size=1024, variant="tsan",
+                 tiers={"quick": dict(cases=150, workers=4), "thorough": dict(cases=3000, workers=6)}),
+    "C06": dict(sources=["props/C06.cpp", "vsched.cpp"], jls=True, sched=True, mrb_size=1024, enumerate=True, tiers=T(1600, 30000), aux=["C06r"],
                 assumptions=["scheduling points: every pthread operation, sleep and clock read of backend_posix.c, every queue operation, the middle of every memcpy and every synchronous-writer call in threaded_writer.c, every backend I/O call; code between two points runs atomically",
                              "queue capacity 1024 bytes through the JLS_VERIF_MRB_BUFFER_SIZE hook",
                              "besides the sampled schedules (choice vectors with shrinking) every schedule with <= 2 preemptions (quick) / <= 3 (thorough) of five tiny two-thread programs, and <= 1 / <= 2 of a three-thread program, is enumerated; time jumps are only sampled",
-                             "unsynchronised accesses that are neither queue operations nor writer calls are invisible to this check"]),
+                             "unsynchronised accesses that are neither queue operations nor writer calls are invisible to the scheduler part; the real-thread part runs the same programs on genuine pthreads in a ThreadSanitizer build (any report = violation), which sees every instrumented access of the library but only the interleavings the machine happens to produce"]),
     "C10": dict(sources=["props/C10.cpp"], jls=True, mrb_size=1 << 16, tiers=T(600, 12000, workers=12), fuzz=dict(workers=4, quick=40, thorough=900, max_len=2048),
                 assumptions=["instance pointers are live, data pointers valid, strings NUL-terminated, caller buffers exactly the documented size (1 byte where the call must be rejected)",
                              "a reader/raw handle/copy is never opened on the file an open writer is writing (jls_rd_open would repair it underneath the writer)",
